@@ -145,6 +145,12 @@ class Run:
                 state_now = last
             else:
                 s.probe('no-report')
+                if c['ending'] == 'terminate' and gen == 0 and not C.kills_seen(s) and sets and got != last:
+                    # a graceful terminate is an ending that lets the worker report: nothing killed the child, it ended through
+                    # the exception - yet the parent neither learned the outcome nor the state the child had assigned
+                    self.viol('synchronised-at-end', f'no-report-after-graceful-terminate:{lib.base_kind(kind)}:{C.cause(s)}',
+                              {'got': lib.safe_repr(got), 'last': lib.safe_repr(last), 'nsets': len(sets), 'r4': r4, 'landings': s.landings[-2:]})
+                    return
                 state_now = got
             if gen == c['chain']:
                 break
